@@ -30,7 +30,7 @@ structure Net where
   inbox : List (List (Option Op))        -- inbox[j]
   counter : List Nat                     -- listener.counter per instance
   orders : List (List String)            -- restart/shutdown orders received by each Supervisor
-  oracle : List (Query × Bool) := []     -- oracle answers for the instance handling the current global action
+  oracle : List (Query × Nat) := []     -- oracle answers for the instance handling the current global action
   deriving Repr
 
 def Net.cfg (g : Net) (i : Nat) : Cfg := g.cfgs.getD i default
